@@ -255,6 +255,51 @@ def _shard_exh(rec, arg):
         rec.sample({"alphabet14": "{X|[x", "class": _recognise(tuple("{X|[x"))})
 
 
+# ---- raw string sources: every escape pair, written as the user would type it --------------------------------
+# (the AST renderer always doubles backslashes, so a lone backslash before an ordinary character only
+# arises here).  x u U N are left out: incomplete Python unicode escapes are the known finding.
+RAW_ALPHA = ["\\", '"', "`", "\n", "a", "'"]
+RAW_CONTEXTS = [("top", "{}"), ("lambda", "λ{};"), ("list-if", "⟨1[{}]⟩"), ("two-strings", "{}{}")]
+
+
+def raw_string_ok(raw):
+    """my own reading of the lexer's rule: a backslash takes the next character with it; an unescaped back-quote ends the string"""
+    i = 0
+    while i < len(raw):
+        if raw[i] == "\\":
+            if i + 1 >= len(raw):
+                return False
+            i += 2
+        elif raw[i] == "`":
+            return False
+        else:
+            i += 1
+    return True
+
+
+def _shard_raw(rec, arg):
+    L, shard, nshards = arg
+    for idx, tup in enumerate(itertools.product(RAW_ALPHA, repeat=L)):
+        if idx % nshards != shard:
+            continue
+        raw = "".join(tup)
+        if not raw_string_ok(raw):
+            continue
+        for name, tpl in RAW_CONTEXTS:
+            text = tpl.replace("{}", "`" + raw + "`")
+            r = check_text(text, settings=SETTINGS[:2])
+            rec.case(nontrivial="\\" in raw or '"' in raw or "\n" in raw, cls=["raw-string-source", f"raw-string-len{L}"])
+            if r:
+                rec.fail(r[0] + ":raw-string", {"raw": raw, "ctx": name}, r[1])
+    if L == 0:
+        for a_ in RAW_ALPHA + ["`"]:
+            for b_ in RAW_ALPHA + ["`"]:
+                r = check_text("λ‛" + a_ + b_ + ";", settings=SETTINGS[:2])
+                rec.case(nontrivial=True, cls=["raw-string-source", "two-char-string"])
+                if r:
+                    rec.fail(r[0] + ":raw-string", {"raw2": a_ + b_}, r[1])
+
+
 def _shard_hyp(rec, arg):
     seed, n = arg
 
@@ -278,6 +323,9 @@ def run(rec, tier, seed):
         jobs += [(L, s, k) for s in range(k)]
     campaign.parallel(rec, _shard_exh, jobs)
     rec.exhaustive.append(f"all strings of length<={N} over the 14 structural symbols (well-formed ones checked)")
+    RL = 5 if quick else 7
+    campaign.parallel(rec, _shard_raw, [(L, s_, 1 if L <= 4 else ns) for L in range(0, RL + 1) for s_ in range(1 if L <= 4 else ns)])
+    rec.exhaustive.append(f"raw back-quoted string sources of length<={RL} over {{backslash, double quote, back-quote, newline, a, '}} in {len(RAW_CONTEXTS)} contexts; all two-character strings over them")
     n = 700 if quick else 25000
     campaign.parallel(rec, _shard_hyp, [(seed * 1000 + i, n) for i in range(ns)])
     if not quick:
@@ -290,6 +338,18 @@ def replay(case):
         if any(c not in ALPHA for c in t) or _recognise(tuple(t)) != WELL:
             return None
         return check_text(t, settings=SETTINGS[:1])
+    if "raw" in case:
+        raw, ctxs = case["raw"], dict(RAW_CONTEXTS)
+        if not isinstance(raw, str) or any(c not in RAW_ALPHA for c in raw) or not raw_string_ok(raw) or case.get("ctx") not in ctxs:
+            return None
+        r = check_text(ctxs[case["ctx"]].replace("{}", "`" + raw + "`"), settings=SETTINGS[:2])
+        return (r[0] + ":raw-string", r[1]) if r else None
+    if "raw2" in case:
+        t2 = case["raw2"]
+        if not isinstance(t2, str) or len(t2) != 2 or any(c not in RAW_ALPHA + ["`"] for c in t2):
+            return None
+        r = check_text("λ‛" + t2 + ";", settings=SETTINGS[:2])
+        return (r[0] + ":raw-string", r[1]) if r else None
     ast = case["ast"]
     progs.validate(ast)
     text, k = progs.render_seq(ast)
